@@ -31,7 +31,7 @@ for S in "${SEEDS[@]}"; do
   F=$(echo "$T" | grep -c FAIL)
   echo "tests: failures outside the baseline's always-failing scripted tests: $F" >> "$R"
   if [ -f "$S/demo.sh" ]; then
-    if grep -q 'yash3 /tmp/seed-.*demo.sh\|yash3 .*demo\.sh' "$S/demo.sh"; then
+    if grep -q 'yash3 /tmp/seed-.*demo.sh\|yash3 .*demo\.sh\|yash3> demo\.sh' "$S/demo.sh"; then
       MODE=interp
     else
       MODE=arg
@@ -43,6 +43,11 @@ for S in "${SEEDS[@]}"; do
     }
     A=$(run_demo "$TG/debug/yash3"); B=$(run_demo /tmp/wt-confirm-yash3-clean)
     echo "demo.sh ($MODE): exit status with the patch $A, without $B" >> "$R"
+    if [ "$A" = "$B" ] && [ $MODE = interp ]; then
+      # a demo that shows its verdict in its output rather than in its exit status
+      OA=$(cd /tmp && timeout 120 "$TG/debug/yash3" "$S/demo.sh" 2>&1 | md5sum); OB=$(cd /tmp && timeout 120 /tmp/wt-confirm-yash3-clean "$S/demo.sh" 2>&1 | md5sum)
+      if [ "$OA" != "$OB" ]; then echo "demo.sh: output with the patch differs from the output without" >> "$R"; else echo "demo.sh: same output with and without the patch" >> "$R"; fi
+    fi
   else
     echo "demo: Rust test to be pasted into the tree (not re-run here)" >> "$R"
   fi
